@@ -260,6 +260,13 @@ def run(ctx) -> None:
     check_sutra(Renamed(ctx, {'T9': 'O9'}, key_filter=lambda k: True))
     from rules.helper_contract import run_shared
     run_shared(ctx, None, 'O10', 5)
+    ctx.rule('O11', 'the gradients a run integrates are its own: no list-valued reservoir declaration argument is shared between instances - otherwise '
+                    'the response of bottom-hole temperature to depth or gradient depends on which runs came before (C08 P3)')
+    from gxstat.runner import Renamed as _Ren
+    from rules.c08 import check_p3 as _p3
+    _n0 = len(ctx.obligations)
+    _p3(_Ren(ctx, {'P3': 'O11'}, key_filter=lambda k: 'Reservoir' in k.split('/')[0] and ('fresh' in k or 'shared-object' in k)))
+    ctx.floor('O11', len(ctx.obligations) - _n0, 2, 'list-valued reservoir declarations')
     ctx.undecided('BHT vs depth/gradient through the layer search', 'Ramey temperature drop vs flow rate', 'NPV vs every cost input through the '
                   'correlations', 'BICYCLE arm monotonicity (mixed-sign tax terms)')
     ctx.exhaustive = True
